@@ -212,26 +212,7 @@ func (p *PathConds) edgeLit(from, to *ssa.BasicBlock) string {
 	if from.Succs[0] == from.Succs[1] {
 		return ""
 	}
-	term := p.t.Term(ifi.Cond)
-	neg := false
-	for strings.HasPrefix(term, "!") {
-		term = term[1:]
-		neg = !neg
-	}
-	// normalise "x != y" into negated "x == y"
-	if strings.HasPrefix(term, "(") && strings.HasSuffix(term, ")") {
-		if i := topLevelOp(term, " != "); i > 0 {
-			term = term[:i] + " == " + term[i+4:]
-			neg = !neg
-		}
-	}
-	// normalise "x <= y" into negated "y < x" (integers: exact complement)
-	if strings.HasPrefix(term, "(") && strings.HasSuffix(term, ")") {
-		if i := topLevelOp(term, " <= "); i > 0 {
-			term = "(" + term[i+4:len(term)-1] + " < " + term[1:i] + ")"
-			neg = !neg
-		}
-	}
+	term, neg := normCondTerm(p.t.Term(ifi.Cond))
 	pos := from.Succs[0] == to
 	if neg {
 		pos = !pos
@@ -746,7 +727,53 @@ func normCondTerm(term string) (string, bool) {
 			neg = !neg
 		}
 	}
+	// "a < b-1" is written "a+1 < b" (integers; no overflow in index arithmetic)
+	if strings.HasPrefix(term, "(") && strings.HasSuffix(term, ")") {
+		if i := topLevelOp(term, " < "); i > 0 {
+			term = ltTerm(term[1:i], term[i+3:len(term)-1])
+		}
+	}
 	return term, neg
+}
+
+var minusK = regexp.MustCompile(`^(.*[^-+*/ (,])-(\d+)$`)
+
+// ltTerm builds the normal form of a < b: a constant subtracted on the right is added on the left.
+func ltTerm(a, b string) string {
+	if m := minusK.FindStringSubmatch(b); m != nil && balanced(m[1]) {
+		k, _ := strconv.Atoi(m[2])
+		for j := 0; j < k && k <= 4; j++ {
+			a = addOne(a)
+		}
+		if k <= 4 {
+			b = m[1]
+		}
+	}
+	return "(" + a + " < " + b + ")"
+}
+
+func balanced(s string) bool {
+	d := 0
+	inStr := false
+	for i := 0; i < len(s); i++ {
+		ch := s[i]
+		if ch == '"' && (i == 0 || s[i-1] != '\\') {
+			inStr = !inStr
+		}
+		if inStr {
+			continue
+		}
+		switch ch {
+		case '(', '[':
+			d++
+		case ')', ']':
+			d--
+			if d < 0 {
+				return false
+			}
+		}
+	}
+	return d == 0
 }
 
 // edgeDNF: the condition of the edge from -> to as a disjunction of conjunctions
